@@ -543,6 +543,14 @@ def gen_c17(ctx):
                     ("x", os.path.join(d["missing"], "p" * 200)), ("prog", "nosuchprogram" * 10)]:
         for sh in ([d["good"]], [d["missing"], d["long"]], [d["missing"]] * 3):
             cases.append(f"in=N out=N err=N det=0 argv={hx(a0)} exe={hx(exe)} path={hx(':'.join(sh))}")
+    # every valid stream configuration, for a program that starts and for one that does not
+    for i, o, e in itertools.product(["N", "P", "F", "R", "M"], repeat=3):
+        if i == "M" or (o == "M" and e == "M"):
+            continue
+        a, b, c = triple_spec(i, o, e, True)
+        cases.append(f"in={a} out={b} err={c} det=0 argv={TRUE}")
+        if (i, o, e).count("M") or ctx.tier != "quick":
+            cases.append(f"in={a} out={b} err={c} det=0 argv={hx(os.path.join(d['missing'], 'prog'))}")
     for n, p in cw.items():
         cases.append(f"in=P out=P err=M det=0 cwd={hx(p)} argv={TRUE}")
         cases.append(f"in=N out=N err=N det=0 cwd={hx(p)} argv={hx(os.path.join(d['missing'], 'prog'))}")
